@@ -92,7 +92,9 @@ fn program_of(case: &Case) -> Vec<El> {
             els
         }
         Case::Cond { cond, code, shape, below } => {
-            let mut els: Vec<El> = below.iter().map(|b| push_el(&alpha(*b))).collect();
+            // one item parked on the alt stack across the conditional (must survive it)
+            let mut els: Vec<El> = vec![El::Op(0x59), El::Op(107)];
+            els.extend(below.iter().map(|b| push_el(&alpha(*b))));
             els.push(push_el(&alpha(*cond)));
             let pass = vec![El::Op(0x52), El::Op(0x53)];
             let fail = vec![El::Op(0x54)];
@@ -107,6 +109,7 @@ fn program_of(case: &Case) -> Vec<El> {
             };
             els.push(El::If { code: *code, pass: p, fail: f });
             els.push(El::Op(0x58));
+            els.push(El::Op(108));
             els
         }
         Case::Program { genes, .. } => build_program(genes),
